@@ -5,12 +5,13 @@ from koala.lattice import Lattice, LatticeException
 
 DRIVERS = ("lat", "c01s")
 MODEL_TARGETS = ["Model/Lattice.vo", "Model/SpecC01.vo"]
-TARGETS = ["Proofs/LatticeFacts.vo", "Proofs/SpecC01Facts.vo", "Proofs/WindingConvexTri.vo", "Proofs/WindingConvex.vo", "Proofs/WindingConvexDec.vo", "Proofs/WindingConvexG1.vo"]
+TARGETS = ["Proofs/LatticeFacts.vo", "Proofs/SpecC01Facts.vo", "Proofs/WindingConvexTri.vo", "Proofs/WindingConvex.vo", "Proofs/WindingConvexDec.vo", "Proofs/WindingConvexG1.vo", "Proofs/WindingConvexRef.vo"]
 LEVEL = "proof"
 TRUST = [
     "hand-written Gallina model coq/Model/Lattice.v of lattice.py (_sorted_vertex_adjacent_edges, _find_plaquette, _find_all_plaquettes): modelled, not verified; tied to the code by the correspondence run below",
     "float arctan2 ordering and float winding sum of the implementation are compared with the exact predicates; inputs whose smallest angular margin is < 1e-9 are counted and skipped (genericity clause)",
-    "geometry facts G1 (turning number = sign of area on crossing-free walks; compared per input) and G2 (orbits of next_dart are the faces) are not proved in Coq",
+    "geometry fact G1 (coded winding number = -1 <=> positive area) is PROVED for triangles and for convex walks of any length in both orientations (C01_G1_triangle, C01_G1_convex, C01_G1_convex_lattice); for non-convex simple walks it is Hopf's Umlaufsatz, not proved, compared on every generated input (the extracted checker reports g1_holds per lattice); G2 (orbits of next_dart are the faces of the embedding) is the definition of 'face' used here",
+    "the property itself is decided on the implementation's output by the EXTRACTED checker spec_c01 (proved: spec_c01 L P = true <-> P enumerates, each once, the legit nd-orbits with positive area), next to a Python restatement that must agree with it; only the float clause 'center is the area centroid' is checked in Python alone (tolerance)",
     "S: the extracted Gallina checker spec_c01n (coq/Model/SpecC01.v; sound AND complete for legit_enumeration by C01_spec_checker_correct) decides every combinatorial clause on the implementation's plaquette list; "
     "the Python restatement spec_on_impl is kept beside it (the two verdicts are compared on every case) and alone covers the float clause 'center is the area centroid'",
 ]
